@@ -67,7 +67,12 @@ def c12_cases(tier):
     # ---- fields
     for cls, v in [('fields/tuple', 'C(u8)'), ('fields/struct', 'C { x: u8 }'), ('fields/empty-tuple', 'C()'), ('fields/empty-struct', 'C {}'), ('fields/tuple-with-discr-like', 'C(i32, i32)')]:
         add(cls, enum_src(FEAT, 'i32', ['A', 'B', v], derive='EnumTools'), 'reject')
+    # fields together with an explicit discriminant (legal Rust on a primitive-repr enum since 1.66)
+    for cls, v in [('fields/tuple+discr', 'C(u8) = 2'), ('fields/struct+discr', 'C { x: bool } = 2'), ('fields/empty-tuple+discr', 'C() = 2'), ('fields/empty-struct+discr', 'C {} = 2')]:
+        for fl in (['#[enum_tools(MIN, MAX)]'], ['#[enum_tools()]'], FEAT):
+            add(cls, enum_src(fl, 'u8', ['A = 0', 'B = 1', v], derive='EnumTools'), 'reject')
     add('fields/twin', enum_src(FEAT, 'i32', ['A', 'B', 'C']), 'accept')
+    add('fields/twin+discr', enum_src(['#[enum_tools(MIN, MAX)]'], 'u8', ['A = 0', 'B = 1', 'C = 2']), 'accept')
     # ---- not an enum
     add('item/struct', ['#[derive(Clone, Copy, EnumTools)]', '#[enum_tools(into)]', '#[repr(C)]', 'pub struct E { x: u8 }'], 'reject')
     add('item/tuple-struct', ['#[derive(Clone, Copy, EnumTools)]', '#[enum_tools(into)]', '#[repr(transparent)]', 'pub struct E(u8);'], 'reject')
@@ -139,6 +144,20 @@ def c13_cases(tier):
             add('param/twin/' + f, ['#[enum_tools(%s%s(name = "a", vis = "pub"))]' % (pre, f)], 'accept')
         else:
             add('param/twin/' + f, ['#[enum_tools(%s%s)]' % (pre, f)], 'accept')
+        # parameters that are legal on a sibling feature but not on this one (the parameter list of every feature is closed)
+        legal = set()
+        if has_nv:
+            legal |= {'name', 'vis'}
+        if f in ('as_str', 'from_str', 'FromStr', 'iter'):
+            legal.add('mode')
+        if f in ('iter', 'names'):
+            legal.add('struct_name')
+        if f == 'sorted':
+            legal |= {'name', 'value'}
+        for pn, pv in [('name', '"a"'), ('vis', '"pub"'), ('vis', '""'), ('mode', '"auto"'), ('mode', '"table"'), ('struct_name', '"S"'), ('value', None), ('rename', '"x"')]:
+            if pn in legal:
+                continue
+            add('param/sibling/%s/%s' % (f, pn), ['#[enum_tools(%s%s(%s))]' % (pre, f, pn if pv is None else '%s = %s' % (pn, pv))])
         # repetition of the feature, in one attribute and across attributes
         add('feature/repeated-same-attr/' + f, ['#[enum_tools(%s%s, %s)]' % (pre, f, f)])
         add('feature/repeated-across-attrs/' + f, ['#[enum_tools(%s%s)]' % (pre, f), '#[enum_tools(%s)]' % f])
@@ -255,6 +274,10 @@ def c14_cases(tier):
     fams.append(('equalnames3', [('A', 1, 'same'), ('B', 2, 'same'), ('C', 3, 'zz')]))
     fams.append(('prefixnames3', [('A', 1, 'a'), ('B', 2, 'ab'), ('C', 3, 'abc')]))
     fams.append(('case3', [('A', 1, 'B'), ('B', 2, 'a'), ('C', 3, 'b')]))     # byte-wise: 'B' < 'a' < 'b'
+    fams.append(('emptyname3', [('A', 1, ''), ('B', 2, 'a'), ('C', 3, 'b')]))   # the empty name sorts first and is a name like any other
+    fams.append(('emptyname1', [('A', 1, '')]))
+    fams.append(('emptyname2dup', [('A', 1, ''), ('B', 2, '')]))
+    fams.append(('nonascii3', [('A', 1, 'z'), ('B', 2, '\u00e4'), ('C', 3, 'Z')]))     # byte-wise UTF-8 order: 'Z' < 'z' < 'ä'
     for fam, vs in fams:
         for perm in itertools.permutations(range(len(vs))):
             order = [vs[i] for i in perm]
